@@ -20,7 +20,7 @@ def row(prop, ks):
             miss.append('%s (%s): %s' % (k, res[k][0], why))
     return '| %s | %d/%d | %s | %s |' % (prop, len(det), len([k for k in ks if k in res]), obl, '<br>'.join(miss))
 out = []
-for rnd, ks_of in (('round 1 (k = 1..3)', lambda p: [p + '_%d' % i for i in (1, 2, 3)]), ('round 2 (k = 4, 5)', lambda p: [p + '_%d' % i for i in (4, 5)])):
+for rnd, ks_of in (('round 1 (k = 1..3)', lambda p: [p + '_%d' % i for i in (1, 2, 3)]), ('round 2 (k = 4, 5)', lambda p: [p + '_%d' % i for i in (4, 5)]), ('round 3 (k = 6, 7)', lambda p: [p + '_%d' % i for i in (6, 7)])):
     out.append('**%s**\n' % rnd)
     out.append('| prop | detected | by obligation (first per seed) | not detected |')
     out.append('|------|----------|-------------------------------|--------------|')
